@@ -80,6 +80,64 @@ pub struct Row {
     pub rhs: f64,
 }
 
+/// A constraint with a piecewise-linear operator in it that every point inside the declared
+/// variable ranges satisfies. The builder entry points state it next to the rows, so the
+/// linear model the builder compiles and solves carries auxiliary columns (`$abs_k`,
+/// `$max_k`, selector binaries) of the linearizer's own making; the exact answer of the
+/// model is untouched. The direct entry points are given the rows alone.
+#[derive(Clone, Debug, PartialEq, Serialize, Deserialize)]
+pub enum Decor {
+    /// `abs(x_i - x_j) <= bound`
+    AbsLe { i: usize, j: usize, bound: f64 },
+    /// `max { x_i, x_j } >= bound`
+    MaxGe { i: usize, j: usize, bound: f64 },
+    /// `min { x_i, x_j } <= bound`
+    MinLe { i: usize, j: usize, bound: f64 },
+}
+
+impl Decor {
+    pub fn vars(&self) -> (usize, usize) {
+        match self {
+            Decor::AbsLe { i, j, .. } | Decor::MaxGe { i, j, .. } | Decor::MinLe { i, j, .. } => {
+                (*i, *j)
+            }
+        }
+    }
+    /// Implied by the variable ranges alone?
+    pub fn redundant_in(&self, vars: &[Var]) -> bool {
+        let (i, j) = self.vars();
+        if i >= vars.len() || j >= vars.len() || i == j {
+            return false;
+        }
+        let (li, hi) = vars[i].dom.bounds_f64();
+        let (lj, hj) = vars[j].dom.bounds_f64();
+        if ![li, hi, lj, hj].iter().all(|x| x.is_finite()) {
+            return false;
+        }
+        match self {
+            Decor::AbsLe { bound, .. } => bound.is_finite() && *bound >= (hi - lj).max(hj - li),
+            Decor::MaxGe { bound, .. } => bound.is_finite() && *bound <= li.max(lj),
+            Decor::MinLe { bound, .. } => bound.is_finite() && *bound >= hi.min(hj),
+        }
+    }
+    /// Introduces selector binaries (the compiled model is then not an LP).
+    pub fn needs_binaries(&self) -> bool {
+        !matches!(self, Decor::AbsLe { .. })
+    }
+    fn reindexed_without(&self, removed: usize) -> Option<Decor> {
+        let (i, j) = self.vars();
+        if i == removed || j == removed {
+            return None;
+        }
+        let f = |k: usize| if k > removed { k - 1 } else { k };
+        Some(match self {
+            Decor::AbsLe { bound, .. } => Decor::AbsLe { i: f(i), j: f(j), bound: *bound },
+            Decor::MaxGe { bound, .. } => Decor::MaxGe { i: f(i), j: f(j), bound: *bound },
+            Decor::MinLe { bound, .. } => Decor::MinLe { i: f(i), j: f(j), bound: *bound },
+        })
+    }
+}
+
 #[derive(Clone, Debug, PartialEq, Serialize, Deserialize)]
 pub struct GenModel {
     pub vars: Vec<Var>,
@@ -87,6 +145,8 @@ pub struct GenModel {
     pub obj: Vec<f64>,
     pub offset: f64,
     pub sense: Sense,
+    #[serde(default, skip_serializing_if = "Vec::is_empty")]
+    pub decor: Vec<Decor>,
 }
 
 impl GenModel {
@@ -95,6 +155,21 @@ impl GenModel {
     }
     pub fn is_continuous(&self) -> bool {
         self.vars.iter().all(|v| !v.dom.is_integer())
+    }
+    /// Continuous also after the builder has compiled the decorations.
+    pub fn is_continuous_through_builder(&self) -> bool {
+        self.is_continuous() && self.decor.iter().all(|d| !d.needs_binaries())
+    }
+    /// The model without variable `j` (decorations that mention it go too).
+    pub fn without_var(&self, j: usize) -> GenModel {
+        let mut c = self.clone();
+        c.vars.remove(j);
+        c.obj.remove(j);
+        for r in &mut c.rows {
+            r.coefs.remove(j);
+        }
+        c.decor = self.decor.iter().filter_map(|d| d.reindexed_without(j)).collect();
+        c
     }
     pub fn int_points(&self) -> u64 {
         self.vars
@@ -130,6 +205,13 @@ impl GenModel {
         } else {
             self.offset
         }
+    }
+
+    /// Scale against which objective values are compared: a solver that places each
+    /// variable to within its own tolerance is off in the objective by that tolerance times
+    /// the size of the objective's coefficients, whatever the size of the optimum itself.
+    pub fn value_scale(&self) -> f64 {
+        self.effective_obj().iter().fold(1.0f64, |a, c| a.max(c.abs()))
     }
 
     pub fn row_activity(&self, row: usize, x: &[f64]) -> f64 {
@@ -187,6 +269,9 @@ impl GenModel {
             if r.coefs.len() != n || !r.rhs.is_finite() || r.coefs.iter().any(|c| !c.is_finite()) {
                 return false;
             }
+        }
+        if !self.decor.iter().all(|d| d.redundant_in(&self.vars)) {
+            return false;
         }
         let mut row_names = std::collections::BTreeSet::new();
         for r in &self.rows {
@@ -255,6 +340,15 @@ impl fmt::Display for GenModel {
                 Cmp::Eq => "=",
             };
             write!(f, "{} {op} {}", fmt_lin(&r.coefs, &self.vars), fmt_num(r.rhs))?;
+        }
+        for d in &self.decor {
+            let (i, j) = d.vars();
+            let (a, b) = (&self.vars[i].name, &self.vars[j].name);
+            match d {
+                Decor::AbsLe { bound, .. } => write!(f, "; [builder only] |{a} - {b}| <= {}", fmt_num(*bound))?,
+                Decor::MaxGe { bound, .. } => write!(f, "; [builder only] max{{{a}, {b}}} >= {}", fmt_num(*bound))?,
+                Decor::MinLe { bound, .. } => write!(f, "; [builder only] min{{{a}, {b}}} <= {}", fmt_num(*bound))?,
+            }
         }
         write!(f, " define ")?;
         for (i, v) in self.vars.iter().enumerate() {
